@@ -186,7 +186,10 @@ def run(ctx: Ctx):
     ctx.rule = ("labels = every chosen TAI-UTC boundary ± {0, 1..25 µs, 1 ms, 0.5 s, 1 s, 2 s, TAI-UTC itself} + random µs "
                 "offsets within ±2 s + uniform 1961..2100, taken as labels of each of the 5 scales; each converted to all 5 "
                 "scales (arrays), a sample also as scalar / length-1; non-trivial = source ≠ target scale; distinct by (scale pair, label)")
+    ctx.extra["source_flow"] = extract_time.generate_flow()[1]
+    ctx.extra["source_purity_entries"] = extract_time.generate_purity()[1]
     ctx.trusted += ["translator/extract_time.py (reads _taiutc.txt as text, constants and hop registry by import)",
+                    "translator/extract_timeflow.py (`ast` -> Lean for the row selection, the route search and to_scale; refuses anything outside its fragment)",
                     "Spec/TaiUtcPublished.lean and harness/data/taiutc_published.json typed from the IERS history",
                     "floating-point error is measured (model vs code ≤ 1e-14 d) not proved",
                     "NumPy broadcasting of the row lookup modelled as map over elements"]
@@ -271,7 +274,120 @@ def run(ctx: Ctx):
             if m != impl_s:
                 ctx.disagree("conversion route", {"a": a, "b": b}, m, impl_s)
 
+    row_selection(ctx, T_, src, near_switch)
+    route_search(ctx, T_)
     oracle(ctx, Time, labels, src, conv)
+
+
+def row_selection(ctx: Ctx, T_, src, near_switch):
+    """the index `_taiutc_idx` returns inside `delta_tai_utc` (recorded while the unmodified function runs) against the model's
+    row lookup and against the regenerated transcription of the source (`c01 row` / `c01 rowsrc`), for every utc and tai label"""
+    drv = ctx.driver
+    for scale in ("utc", "tai"):
+        if scale not in src:
+            continue
+        t = src[scale]
+        rec = []
+        orig = getattr(T_, "_taiutc_idx", None)
+        if orig is None:
+            ctx.disagree("row selection", {"scale": scale}, "model: _taiutc_idx", "no function _taiutc_idx in the source")
+            continue
+
+        def wrap(*a, _o=orig, **k):
+            r = _o(*a, **k)
+            rec.append((np.array(r), [np.array(x, dtype=float) for x in a[:2]]))
+            return r
+
+        T_._taiutc_idx = wrap
+        try:
+            T_.delta_tai_utc(t)
+        except Exception as e:
+            ctx.violate(f"delta_tai_utc-raises:{scale}", f"{type(e).__name__}: {e}", {"scale": scale})
+            continue
+        finally:
+            T_._taiutc_idx = orig
+        a1, a2 = parts(t)
+        if len(rec) != 1 or np.shape(rec[0][0]) != np.shape(a1):
+            ctx.disagree("row selection", {"scale": scale}, "one lookup per epoch with (jd1, jd2) of the time",
+                         f"{len(rec)} call(s) of _taiutc_idx, result shape {[np.shape(r[0]) for r in rec]} for {np.shape(a1)} epochs")
+            continue
+        idx = rec[0][0]
+        ans = drv.ask([f"c01 row {scale} {rs(x)} {rs(y)}" for x, y in zip(a1, a2)])
+        ans2 = drv.ask([f"c01 rowsrc {scale} {rs(x)} {rs(y)}" for x, y in zip(a1, a2)])
+        rows_hit = set()
+        for i, (m, m2) in enumerate(zip(ans, ans2)):
+            ctx.case(["row", scale, float(a1[i]), float(a2[i])])
+            if m != m2:
+                ctx.disagree("row selection: model vs regenerated source", {"scale": scale, "jd1": float(a1[i]), "jd2": float(a2[i])}, m, m2)
+            if str(int(idx[i])) != m:
+                x = frac(a1[i]) + frac(a2[i])
+                if near_switch(scale, x):
+                    ctx.count("near-switch-skipped")
+                    continue
+                ctx.disagree("row selection: _taiutc_idx vs model", {"scale": scale, "jd1": float(a1[i]), "jd2": float(a2[i])}, m, int(idx[i]))
+            rows_hit.add(int(idx[i]))
+        ctx.count(f"row-lookups:{scale}", len(ans))
+        ctx.extra[f"rows_hit_{scale}"] = len(rows_hit)
+        ctx.traces += len(ans)
+
+
+def route_search(ctx: Ctx, T_):
+    """`_find_conversion_hops` of the real module on random registries (a scratch class key in `_CONVERSIONS`, removed afterwards)
+    against the model's breadth-first search and the regenerated transcription; then the memoised routes of the real registry"""
+    drv = ctx.driver
+    rng = ctx.rng
+    KEY = "VerifProbeArray"
+    pairs = [(a, b) for a in SCALES for b in SCALES]
+    lines, want = [], []
+    try:
+        for _ in range(ctx.budget(400, 6000)):
+            k = rng.choice([0, 1, 2, 3, 4, 5, 6, 8, 10, 12, 16])
+            edges = rng.sample(pairs, min(k, len(pairs)))
+            if rng.random() < 0.7:
+                edges = [e for e in edges if e[0] != e[1]]
+            a, b = rng.choice(SCALES), rng.choice(SCALES)
+            if rng.random() < 0.6:
+                # a chain through some of the scales (so that long routes, cycles and several routes of equal length occur),
+                # a few extra hops, registration order shuffled
+                order = rng.sample(SCALES, rng.randint(2, 5))
+                chain = list(zip(order, order[1:]))
+                if rng.random() < 0.4:
+                    chain += [(y, x) for x, y in chain]
+                edges = list(dict.fromkeys(chain + edges[: rng.randint(0, 4)]))
+                rng.shuffle(edges)
+                if rng.random() < 0.7:
+                    a, b = order[0], order[-1]
+            T_._CONVERSIONS[KEY] = {e: None for e in edges}
+            try:
+                r = T_._find_conversion_hops(KEY, (a, b))
+                impl = ",".join(f"{x}>{y}" for x, y in r) if r else "[]"
+            except Exception as e:
+                impl = "none" if type(e).__name__ == "UnknownConversionError" else f"ERR:{type(e).__name__}"
+            g = ",".join(f"{x}>{y}" for x, y in edges) or "-"
+            lines += [f"c01 search model {g} {a} {b}", f"c01 search src {g} {a} {b}"]
+            want.append((g, a, b, impl))
+    finally:
+        T_._CONVERSIONS.pop(KEY, None)
+    ans = drv.ask(lines)
+    for i, (g, a, b, impl) in enumerate(want):
+        m, m2 = ans[2 * i], ans[2 * i + 1]
+        case = {"registry": g, "a": a, "b": b}
+        ctx.case(["search", g, a, b], nontrivial=(a != b))
+        ctx.count("search:start=target" if a == b else "search:unreachable" if impl == "none" else f"search:hops={impl.count('>')}" if not impl.startswith("ERR") else "search:error")
+        if m != m2:
+            ctx.disagree("route search: model vs regenerated source", case, m, m2)
+        if m != impl:
+            ctx.disagree("route search: _find_conversion_hops vs model", case, m, impl)
+    ctx.traces += len(want)
+    # the memo of to_scale holds, for every pair it has served, the route a fresh search gives
+    for (a, b), memo in list(T_._CONVERSION_HOPS.get("TimeArray", {}).items()):
+        try:
+            fresh = T_._find_conversion_hops("TimeArray", (a, b))
+        except Exception as e:
+            fresh = f"ERR:{type(e).__name__}"
+        ctx.count("route-memo-checked")
+        if list(memo) != fresh:
+            ctx.violate(f"route-memo:{a}->{b}", f"memoised route {memo} differs from a fresh search {fresh}", {"a": a, "b": b})
 
 
 def oracle(ctx: Ctx, Time, labels, src, conv):
